@@ -30,14 +30,17 @@ type BaselineGroup struct {
 
 // KnownFinding is one entry of /verif/known_findings.json.
 type KnownFinding struct {
-	ID       string   `json:"id"`
-	Property string   `json:"property"`
-	Status   string   `json:"status"` // known | fixed
-	Groups   []string `json:"groups"` // obligation groups that fail because of this finding
-	Sites    []string `json:"sites,omitempty"`
-	What     string   `json:"what_fails"`
-	Replay   string   `json:"replay,omitempty"`
-	Commit   string   `json:"commit,omitempty"`
+	ID         string   `json:"id"`
+	Property   string   `json:"property"`
+	Status     string   `json:"status"` // known | fixed
+	Groups     []string `json:"groups"` // obligation groups that fail because of this finding
+	Sites      []string `json:"sites,omitempty"`
+	What       string   `json:"what_fails"`
+	Replay     string   `json:"replay,omitempty"`
+	ReplayFile string   `json:"replay_file,omitempty"`
+	ReplayPkg  string   `json:"replay_pkg,omitempty"`
+	ReplayRun  string   `json:"replay_run,omitempty"`
+	Commit     string   `json:"commit,omitempty"`
 }
 
 var retSiteRe = regexp.MustCompile(`:ret\d+`)
@@ -56,19 +59,20 @@ func groupOf(name string) string {
 func siteOf(name string) string { return pathIdxRe.ReplaceAllString(name, "") }
 
 type runCtx struct {
-	prop    string
-	tier    string
-	seed    int
-	w       *vc.World
-	cs      *vc.ContractSet
-	ex      *vc.Exec
-	funcs   []*vc.FuncResult
-	obls    []*vc.Obligation
-	results []*vc.SolveResult
-	outDir  string
-	loadS   float64
-	genS    float64
-	solveS  float64
+	prop        string
+	tier        string
+	seed        int
+	w           *vc.World
+	cs          *vc.ContractSet
+	ex          *vc.Exec
+	funcs       []*vc.FuncResult
+	obls        []*vc.Obligation
+	results     []*vc.SolveResult
+	outDir      string
+	knownReplay map[string]string
+	loadS       float64
+	genS        float64
+	solveS      float64
 }
 
 // contractFiles finds every zz_contracts_verif.go under the repo (x, precompiles, app, utils).
@@ -529,6 +533,24 @@ func checkCmd(args []string) int {
 		os.WriteFile(rp, []byte(fmt.Sprintf("obligation: %s\nproperty: %s\nkind: static\nclause: %s\nfound in working tree: %s\n", so.Name, *prop, so.Src, so.Detail)), 0o644)
 		say("VIOLATION property=%s replay=%s obligation=%s status=static-mismatch (%s) no-failing-input-found", *prop, rp, so.Name, so.Detail)
 	}
+	// thorough tier: the hand-written replays of known findings are re-run on the real code
+	knownReplay := map[string]string{}
+	if *tier == "thorough" {
+		for _, k := range known {
+			if k.Property != *prop || k.ReplayFile == "" {
+				continue
+			}
+			res := runKnownReplay(k)
+			knownReplay[k.ID] = res
+			say("known-finding replay %s (%s): %s", k.ID, k.Status, res)
+			if k.Status == "fixed" && res == "fails (defect reproduces)" {
+				violations++
+				exit = max(exit, 1)
+				say("VIOLATION property=%s replay=%s obligation=known-finding:%s status=fixed-defect-returned", *prop, filepath.Join(verifDir(), k.ReplayFile), k.ID)
+			}
+		}
+	}
+	rc.knownReplay = knownReplay
 	if claimed == 0 && exit == 0 {
 		say("exovc: no claimed obligation was generated for %s (machinery broken)", *prop)
 		exit = 2
@@ -634,7 +656,8 @@ func (rc *runCtx) writeEvidence(prop, tier string, seed, claimed, discharged, vi
 	var kfOut []map[string]interface{}
 	for _, k := range known {
 		if k.Property == prop {
-			kfOut = append(kfOut, map[string]interface{}{"id": k.ID, "status": k.Status, "reproduced_this_run": knownHit[k.ID], "what_fails": k.What})
+			kfOut = append(kfOut, map[string]interface{}{"id": k.ID, "status": k.Status, "obligation_failed_this_run": knownHit[k.ID], "what_fails": k.What,
+				"replay_on_real_code": rc.knownReplay[k.ID]})
 		}
 	}
 	ev := map[string]interface{}{
@@ -770,4 +793,25 @@ func globalRefPackages(files []string) []string {
 	}
 	sort.Strings(out)
 	return out
+}
+
+// runKnownReplay runs the hand-written replay test of a known finding on the real code through go test -overlay.
+func runKnownReplay(k *KnownFinding) string {
+	dir := filepath.Join(repoDir(), k.ReplayPkg)
+	ov := map[string]map[string]string{"Replace": {filepath.Join(dir, "zz_verif_known_replay_test.go"): filepath.Join(verifDir(), k.ReplayFile)}}
+	b, _ := json.Marshal(ov)
+	ovf := filepath.Join(os.TempDir(), fmt.Sprintf("exovc_known_%d.json", os.Getpid()))
+	os.WriteFile(ovf, b, 0o644)
+	defer os.Remove(ovf)
+	cmd := execCommand("go", "test", "-overlay", ovf, "-vet=off", "-count=1", "-timeout", "300s", "-run", k.ReplayRun, ".")
+	cmd.Dir = dir
+	cmd.Env = append(os.Environ(), "GOFLAGS=-mod=mod", "GOPROXY=off", "GOSUMDB=off", "GOTOOLCHAIN=local")
+	out, err := cmd.CombinedOutput()
+	if err == nil {
+		return "passes (defect does not reproduce)"
+	}
+	if strings.Contains(string(out), "--- FAIL") {
+		return "fails (defect reproduces)"
+	}
+	return "could not run: " + truncateStr(string(out), 200)
 }
